@@ -300,3 +300,5 @@ def run(ctx):
                         bad.append(f"{fi.qualname}: generator expression passed")
     ctx.check(n >= 1 and not bad, "C10.e", "apply_bin_map:callers-pass-lists", f"{n} call site(s), all pass lists",
               "; ".join(bad) or "no call site of apply_bin_map found", ab.where)
+    # the axis a merge is asked for is resolved by the one resolver (shared with C09.b)
+    ctx.borrow("C09", ("_get_axis:",), "C10.d", floor=3)
